@@ -235,9 +235,6 @@ Proof.
   intros H x y. split; induction 1; try (apply t_step, H; assumption); eapply t_trans; eauto.
 Qed.
 
-(** "[i] is (transitively) needed to compute [j]", straight from the definitions *)
-Definition depends (ds : list vdef) : nat -> nat -> Prop := clos_trans nat (is_param_of ds).
-
 Theorem from_dict_closures ds r : from_dict ds = FOk r ->
   Permutation (order r) (seq 0 (length ds)) /\
   (forall i j, depends ds i j -> before (order r) i j) /\
@@ -281,4 +278,92 @@ Proof.
   replace (direct_ancestors (ds1 ++ DLinked (CNamed (nif_then n g gk)) :: ds2))
      with (direct_ancestors (ds1 ++ DLinked (CNamed n) :: ds2)); auto.
   induction ds1 as [|d ds1 IH]; simpl; [reflexivity|]. now rewrite IH.
+Qed.
+
+(** * Exactly which definitions are accepted (completeness, lifted from [build_accepts] / [build_refuses]) *)
+
+Lemma parents_nil_iff g i : parents g i = [] <-> forall p, ~ edge g p i.
+Proof.
+  unfold edge. split.
+  - intros -> p. simpl. auto.
+  - intros H. destruct (parents g i) as [|x l]; auto. elim (H x). simpl. auto.
+Qed.
+
+Section Lift.
+  Variables (ds : list vdef) (g : graph).
+  Hypothesis E : direct_ancestors ds = Some g.
+
+  Let Ed := direct_ancestors_edges _ _ E.
+  Let L : nnodes g = length ds := proj1 (direct_ancestors_some _ _ E).
+
+  Lemma lift_unknown : unknown_ref g <-> unknown_param ds.
+  Proof.
+    unfold unknown_ref, unknown_param. rewrite L. split.
+    - intros (c & p & H & K). exists p, c. split; auto. now apply Ed.
+    - intros (p & v & H & K). exists v, p. split; auto. now apply Ed.
+  Qed.
+
+  Lemma lift_self : self_loop g <-> self_param ds.
+  Proof. unfold self_loop, self_param. split; intros (i & H); exists i; now apply Ed. Qed.
+
+  Lemma lift_isolated : isolated g <-> isolated_def ds.
+  Proof.
+    unfold isolated, isolated_def. rewrite L. split.
+    - intros (i & Hi & P & C). exists i. split; auto. split.
+      + intros p H. apply Ed in H. revert p H. now apply parents_nil_iff.
+      + intros c H. apply (C c). now apply Ed.
+    - intros (i & Hi & P & C). exists i. split; auto. split.
+      + apply parents_nil_iff. intros p H. apply (P p). now apply Ed.
+      + intros c H. apply (C c). now apply Ed.
+  Qed.
+
+  Lemma lift_cyclic : cyclic g <-> cyclic_defs ds.
+  Proof.
+    unfold cyclic, cyclic_defs, reach, depends. split; intros (i & H); exists i;
+      apply (clos_trans_iff (edge g) (is_param_of ds) Ed); exact H.
+  Qed.
+End Lift.
+
+Theorem from_dict_accepts_iff ds :
+  (exists r, from_dict ds = FOk r) <->
+  ~ bad_signature ds /\ ~ unknown_param ds /\ ~ self_param ds /\ ~ isolated_def ds /\ ~ cyclic_defs ds.
+Proof.
+  rewrite from_dict_unfold. destruct (direct_ancestors ds) as [g|] eqn:E.
+  - pose proof (lift_unknown _ _ E) as U. pose proof (lift_self _ _ E) as S.
+    pose proof (lift_isolated _ _ E) as I. pose proof (lift_cyclic _ _ E) as C.
+    assert (NB : ~ bad_signature ds) by (intros B; apply direct_ancestors_none in B; congruence).
+    split.
+    + intros (r & H). destruct (build g) as [r'|e] eqn:B; [|discriminate].
+      assert (R : forall P : Prop, (P -> cyclic g \/ self_loop g \/ unknown_ref g \/ isolated g) -> ~ P).
+      { intros P HP p. destruct (build_refuses g (HP p)) as (e & K). congruence. }
+      split; [exact NB|]. repeat split; apply R; intros K.
+      * right. right. left. now apply U.
+      * right. left. now apply S.
+      * right. right. right. now apply I.
+      * left. now apply C.
+    + intros (_ & A & B & C' & D).
+      destruct (build_accepts g) as (r & K).
+      * intros K. apply D. now apply C.
+      * intros K. apply B. now apply S.
+      * intros K. apply A. now apply U.
+      * intros K. apply C'. now apply I.
+      * exists r. now rewrite K.
+  - split.
+    + intros (r & H). discriminate.
+    + intros (NB & _). elim NB. now apply direct_ancestors_none.
+Qed.
+
+(** every refusal of [from_dict] names a defect of the DEFINITIONS (and never a model artefact / the key-set check) *)
+Theorem from_dict_error_meaning ds e : from_dict ds = FErr e ->
+  (e = FSignature /\ bad_signature ds) \/ (e = FDag EUnknownRef /\ unknown_param ds) \/ (e = FDag ESelfLoop /\ self_param ds) \/
+  (e = FDag EIsolated /\ isolated_def ds) \/ (e = FDag ENotDag /\ cyclic_defs ds).
+Proof.
+  rewrite from_dict_unfold. destruct (direct_ancestors ds) as [g|] eqn:E.
+  - destruct (build g) as [r|e'] eqn:B; [discriminate|]. intros H. injection H as <-. right.
+    destruct (build_err_meaning _ _ B) as [(-> & K)|[(-> & K)|[(-> & K)|(-> & K)]]].
+    + left. split; auto. now apply (lift_unknown _ _ E).
+    + right. left. split; auto. now apply (lift_self _ _ E).
+    + right. right. left. split; auto. now apply (lift_isolated _ _ E).
+    + right. right. right. split; auto. now apply (lift_cyclic _ _ E).
+  - intros H. injection H as <-. left. split; auto. now apply direct_ancestors_none.
 Qed.
